@@ -7,6 +7,7 @@ exact k-1 overlap, lengths in [k, 2k-p], minimizer = the p-mer at the reported p
 interval, minimal there, and no interval ends early); every narrowing `as` cast in scan is dominated by an assertion
 bounding it; scores are never truncated before comparison."""
 from .. import dt_msp
+from . import common
 
 ASSUMPTIONS = ["window sizes are bounded (len <= 6 quick, <= 8 thorough); the loop body is uniform in the position, the general case rests on that uniformity",
                "score functions are arbitrary (all orderings and ties of the window's p-mer scores are explored)"]
@@ -19,3 +20,5 @@ def run(F, rep):
     rep.run(dt_msp.cast_guards, F, rep, "C07.6")
     # the wrappers (simple_scan, msp_sequence) hand the documented score to the scanner: perm[rank(p)], min over both strands in rc mode
     rep.run(dt_msp.score_closure_tables, F, rep, "C07.7")
+    # the scanner takes its first p-mer of every window with get_kmer on the read, which may be a (reverse-complemented) view
+    rep.run(common.run_store_kmer_lemmas, F, rep, "C07.6")
